@@ -258,7 +258,7 @@ impl RealCluster {
 
     /// the node process for slot i, with the other live nodes as its replicate list
     fn spawn_node(&self, i: usize) -> Result<Child, String> {
-        let exe = std::env::current_exe().map_err(|e| e.to_string())?;
+        let exe = crate::util::self_exe();
         let others: Vec<String> = (0..self.names.len()).filter(|j| *j != i && self.alive.get(*j).copied().unwrap_or(false)).map(|j| self.names[j].clone()).collect();
         let replicate = if others.is_empty() { "-".to_string() } else { others.join(",") };
         Command::new(&exe)
